@@ -495,6 +495,62 @@ pub fn layout_seeds(tier: &str) -> Vec<(Seed, PlanOpts)> {
         let opts = PlanOpts { truncations: false, structure: false, layout_only: true, ..PlanOpts::full() };
         out.push((Seed { name: format!("synthetic/gsub-for-script-{}", String::from_utf8_lossy(script)), bytes, wrap: Wrap::Raw }, opts));
     }
+    // contextual rules without lookup records (inert rules are legal): chaining format 3 in GSUB and GPOS, context format 3
+    // in GSUB; one fault on a glyph count then meets a rule that nothing else would have rejected
+    {
+        use otmodel::be::W;
+        let table = |feature: &[u8; 4], lookup_type: u16, subtable: Vec<u8>| -> Vec<u8> {
+            let mut sl = W::new();
+            sl.u16(2).tag(otmodel::tag(b"DFLT")).u16(14).tag(otmodel::tag(b"latn")).u16(14);
+            sl.u16(4).u16(0).u16(0).u16(0xFFFF).u16(1).u16(0);
+            let sl = sl.done();
+            let mut fl = W::new();
+            fl.u16(1).tag(otmodel::tag(feature)).u16(8).u16(0).u16(1).u16(0);
+            let fl = fl.done();
+            let mut ll = W::new();
+            ll.u16(1).u16(4).u16(lookup_type).u16(0).u16(1).u16(8).bytes(&subtable);
+            let ll = ll.done();
+            let mut g = W::new();
+            g.u16(1).u16(0).u16(10).u16((10 + sl.len()) as u16).u16((10 + sl.len() + fl.len()) as u16);
+            g.bytes(&sl).bytes(&fl).bytes(&ll);
+            g.done()
+        };
+        let chain3 = || {
+            let mut w = W::new();
+            // format 3, 0 backtrack, 1 input coverage (at 12), 0 lookahead, 0 lookup records; Coverage 1: [glyph 1]
+            w.u16(3).u16(0).u16(1).u16(12).u16(0).u16(0).u16(1).u16(1).u16(1);
+            w.done()
+        };
+        let ctx3 = || {
+            let mut w = W::new();
+            // format 3, 1 glyph, 0 lookup records, coverage at 8; Coverage 1: [glyph 1]
+            w.u16(3).u16(1).u16(0).u16(8).u16(1).u16(1).u16(1);
+            w.done()
+        };
+        // malformed from the start: an input sequence of zero glyphs (and no lookup records); every glyph count that a
+        // reader indexes with [0] must have been checked by whoever parsed it
+        let chain3_empty = || {
+            let mut w = W::new();
+            w.u16(3).u16(0).u16(0).u16(0).u16(0).u16(0).u16(0);
+            w.done()
+        };
+        let ctx3_empty = || {
+            let mut w = W::new();
+            w.u16(3).u16(0).u16(0).u16(0).u16(0);
+            w.done()
+        };
+        let cmap = [(0x41u32, 1u16), (0x42, 2), (0x66, 3), (0x69, 4)];
+        let opts = PlanOpts { truncations: false, structure: false, layout_only: true, ..PlanOpts::full() };
+        for (name, tables) in [
+            ("malformed-chain-context-3-without-input-gsub+gpos", vec![(tag::GSUB, table(b"calt", 6, chain3_empty())), (tag::GPOS, table(b"kern", 8, chain3_empty()))]),
+            ("malformed-context-3-without-input-gsub+gpos", vec![(tag::GSUB, table(b"calt", 5, ctx3_empty())), (tag::GPOS, table(b"kern", 7, ctx3_empty()))]),
+            ("inert-chain-context-3-gsub+gpos", vec![(tag::GSUB, table(b"calt", 6, chain3())), (tag::GPOS, table(b"kern", 8, chain3()))]),
+            ("inert-context-3-gsub+gpos", vec![(tag::GSUB, table(b"calt", 5, ctx3())), (tag::GPOS, table(b"kern", 7, ctx3()))]),
+        ] {
+            let bytes = otmodel::tables::minimal_font(6, &cmap, &tables);
+            out.push((Seed { name: format!("synthetic/{}", name), bytes, wrap: Wrap::Raw }, opts.clone()));
+        }
+    }
     // synthetic kern / layout seeds
     for (name, bytes) in crate::synth::seeds() {
         if name.starts_with("kern") {
